@@ -22,7 +22,8 @@ const badOutput2 = `{"header":7,"body":{}}`
 const goodInput = `{"header":{},"body":{}}`
 const goodSchemas = `{"input":{"type":"object"},"output":{"type":"object"}}`
 
-var svcNamePool = []string{"a", "ab", "a-b", "a_1", "abc", "svc", "a-", "Ab", "a" + strings.Repeat("x", 69)}
+var svcNamePool = []string{"a", "ab", "a-b", "a_1", "abc", "svc", "a-", "Ab", "a" + strings.Repeat("x", 69),
+	"a" + strings.Repeat("x", 68) + "y", "a" + strings.Repeat("x", 63), "a" + strings.Repeat("x", 64)}
 
 func (g *Gen) refOf(acct int) string { return acctRef(acct) }
 
@@ -65,10 +66,21 @@ var discountPool = []string{"0.5", "0.1", "0.9", "0.25", "0.333333333333333333",
 
 func (g *Gen) genPricing() string {
 	price := pickStr(g, []string{"0stake", "0.5stake", "1stake", "1stake", "2stake", "3stake", "10stake", "10stake", "7stake", "1000stake", "1.9stake"})
+	if g.stretch && g.chance(0.2) && g.x.cur.Params.MinDepositMultiple <= 10 {
+		price = pickStr(g, []string{"3000000000stake", "5000000000stake", "10000000000000000stake", "4294967296stake", "2147483648stake"})
+	}
+	if g.chance(0.02) {
+		// a price whose minimum deposit (price x multiple) does not fit 64 bits: no affordable deposit covers it
+		price = pickStr(g, []string{"92233720368547759stake", "18446744073709551616stake", "9223372036854775808stake"})
+	}
+	maxPromos := 3
+	if g.stretch {
+		maxPromos = 5
+	}
 	var parts []string
 	parts = append(parts, fmt.Sprintf(`"price":"%s"`, price))
 	if g.chance(g.prof.TimePromos) {
-		n := 1 + g.pick(3)
+		n := 1 + g.pick(maxPromos)
 		// windows in the near simulated future, back to back or with gaps
 		start := g.simT + int64(g.pick(40))*1e9
 		var ws []string
@@ -88,10 +100,19 @@ func (g *Gen) genPricing() string {
 				start += int64(1+g.pick(20)) * 1e9
 			}
 		}
+		if g.chance(0.08) {
+			// an open-ended promotion: starts soon, ends in the year 9999
+			st := g.x.genesis.Add(time.Duration(start + 1e9)).Format(time.RFC3339Nano)
+			ws = append(ws, fmt.Sprintf(`{"start_time":"%s","end_time":"9999-12-31T00:00:00Z","discount":"%s"}`, st, pickStr(g, discountPool)))
+			g.addAnchor(start + 1e9)
+		}
+		if len(ws) > 5 {
+			ws = ws[len(ws)-5:]
+		}
 		parts = append(parts, `"promotions_by_time":[`+strings.Join(ws, ",")+`]`)
 	}
 	if g.chance(0.5) {
-		n := 1 + g.pick(3)
+		n := 1 + g.pick(maxPromos)
 		v := uint64(1 + g.pick(2))
 		var vs []string
 		for i := 0; i < n; i++ {
@@ -199,6 +220,9 @@ func (g *Gen) actorsAct() {
 	}
 	if g.chance(g.prof.Burst) {
 		g.burstAct()
+	}
+	if g.stretch {
+		g.stretchAct()
 	}
 	// providers watch for requests every block
 	g.providersAct()
@@ -417,6 +441,9 @@ func (g *Gen) consumerAct() {
 	if maxT <= 12 && g.chance(0.1) {
 		timeout = maxT
 	}
+	if g.stretch && g.chance(0.15) {
+		timeout = int64(1 + g.pick(int(minI64(maxT, 30)))) // long timeouts (the drain is sized for 30)
+	}
 	var provs []string
 	var maxPrice int64 = 1
 	for _, b := range binds {
@@ -468,6 +495,12 @@ func (g *Gen) consumerAct() {
 			m.Freq = uint64(timeout) + uint64(1+g.pick(4))
 		}
 		m.Total = pickI64(g, []int64{1, 2, 2, 3, 5, -1})
+		if g.chance(0.03) {
+			m.Total = pickI64(g, []int64{1 << 31, 1<<31 + 1, 1 << 40, math.MaxInt64}) // "forever" written as a huge total
+		}
+		if g.chance(0.02) {
+			m.Freq = 1<<32 + uint64(timeout) + uint64(g.pick(5)) // a frequency that does not fit 32 bits: no second batch within any run
+		}
 		if g.useHugeFreq && g.chance(0.3) {
 			m.Freq = pickU64(g, []uint64{1 << 62, 1<<63 - 1, 1 << 63, 1<<63 + 5, math.MaxUint64})
 		}
@@ -533,6 +566,9 @@ func (g *Gen) controlAct() {
 		return
 	}
 	ref := g.ctxRefFor(id)
+	if g.longLivedRefs[ref] && !g.chance(0.03) {
+		return // the every-block contexts of a stretch run are mostly left alone so that their counters can grow
+	}
 	delay := g.pick(3)
 	var m MsgOp
 	switch g.pick(10) {
@@ -615,6 +651,12 @@ func (g *Gen) providersAct() {
 			continue
 		}
 		ref := reqRefOf(g.ctxRefFor(ri.Ctx), ri.Batch, acctRef(pi))
+		if c, ok := s.Ctx[ri.Ctx]; ok && g.stretch && c.Repeated && c.RepeatedTotal < 0 && c.Timeout == 1 && c.RepeatedFrequency == 1 && (g.nBlocks >= 290 || !g.chance(0.05)) {
+			// the every-block context of a stretch run: answered reliably, so that its volume and batch counter grow
+			g.pool = append(g.pool, pendingTx{op: g.tx(pi, MsgOp{T: "respond", Req: ref, Result: okResult, Output: goodOutput}), due: g.block, order: g.orderN + 1})
+			g.orderN++
+			continue
+		}
 		r := g.rng.Float64()
 		p := g.prof.WProvider
 		timeout := int(q.ExpirationHeight - q.RequestHeight)
@@ -922,6 +964,133 @@ func (g *Gen) burstAct() {
 		want := total/2 + int64(g.pick(int(total/2)+1))
 		if bal < want && g.chance(0.7) {
 			g.submit(g.tx(g.stranger, MsgOp{T: "send", To: acctRef(consumer), Amount: want - bal}), 0)
+		}
+	}
+}
+
+// stretchAct: scale dimensions. (1) long-lived contexts that get a batch every block (timeout = frequency = 1,
+// no total) to a provider that always answers: batch counters and request volumes grow by one per block;
+// (2) contexts naming as many providers as are bound (up to the maximum of 10); (3) many contexts expiring in one block;
+// (4) repeated pause/start cycles of one context.
+func (g *Gen) stretchAct() {
+	svcs := g.definedSvcs()
+	if len(svcs) == 0 {
+		return
+	}
+	if g.longLived < 2 && g.block >= 3 && g.chance(0.3) {
+		for _, svc := range svcs {
+			for _, b := range g.bindingsOf(svc) {
+				if b.Available && b.QoS == 1 && g.acctIndex(b.Provider) >= 0 {
+					hp, err := ParseHPricing(b.Pricing)
+					if err != nil || !hp.Base.IsInt64() || hp.Base.Int64() > 1000 {
+						continue
+					}
+					c := g.consumers[g.longLived%len(g.consumers)]
+					op := g.tx(c, MsgOp{T: "call", Svc: svc, Providers: []string{refOfAddr(g, b.Provider)}, Input: goodInput,
+						FeeCap: fmt.Sprintf("%dstake", maxI64(1, hp.Base.Int64())), Timeout: 1, Repeated: true, Freq: 1, Total: -1})
+					g.longLivedRefs[ctxRefOf(op.Tx.Label, 0)] = true
+					g.submit(op, 0)
+					g.longLived++
+					g.x.stats.inc("probe_stretch_long_lived_context")
+					return
+				}
+			}
+		}
+		// no suitable binding yet: make one
+		owner := pickInt(g, g.owners)
+		pricing := `{"price":"2stake","promotions_by_volume":[{"volume":3,"discount":"0.9"},{"volume":8,"discount":"0.8"},{"volume":12,"discount":"0.7"},{"volume":20,"discount":"0.6"},{"volume":40,"discount":"0.5"}]}`
+		g.submit(g.tx(owner, MsgOp{T: "bind", Svc: pickStr(g, svcs), Prov: acctRef(pickInt(g, g.providers)), Deposit: fmt.Sprintf("%dstake", g.curMinDeposit(pricing)*3), Pricing: pricing, QoS: 1, Options: "{}"}), 0)
+	}
+	if g.chance(0.04) {
+		// every bound provider of a service in one context
+		svc := pickStr(g, svcs)
+		var provs []string
+		for _, b := range g.bindingsOf(svc) {
+			provs = append(provs, refOfAddr(g, b.Provider))
+		}
+		if len(provs) >= 4 {
+			if len(provs) > 10 {
+				provs = provs[:10]
+			}
+			g.submit(g.tx(pickInt(g, g.consumers), MsgOp{T: "call", Svc: svc, Providers: provs, Input: goodInput, FeeCap: "20000000000000000stake", Timeout: int64(2 + g.pick(4)), Repeated: g.chance(0.5), Total: 3}), 0)
+			g.x.stats.inc("probe_stretch_many_providers")
+			if len(provs) == 10 {
+				g.x.stats.inc("probe_stretch_ten_providers")
+			}
+		}
+	}
+	if g.chance(0.03) {
+		// every provider account bound to one service, cheaply, so that contexts can name the maximum of 10 providers
+		svc := pickStr(g, svcs)
+		owner := pickInt(g, g.owners)
+		pricing := `{"price":"1stake"}`
+		dep := fmt.Sprintf("%dstake", g.curMinDeposit(pricing)*2)
+		for _, pi := range g.providers {
+			g.submit(g.tx(owner, MsgOp{T: "bind", Svc: svc, Prov: acctRef(pi), Deposit: dep, Pricing: pricing, QoS: 1, Options: "{}"}), 0)
+		}
+		g.x.stats.inc("probe_stretch_bind_all")
+	}
+	if g.useModule && g.chance(0.04) {
+		// a module-owned context naming all (up to 10) providers of a service, threshold at or just below their number
+		svc := pickStr(g, svcs)
+		var provs []string
+		for _, b := range g.bindingsOf(svc) {
+			if b.Available && (g.acctIndex(b.Provider) >= 0 || g.rawResponders) {
+				provs = append(provs, refOfAddr(g, b.Provider))
+			}
+		}
+		if len(provs) >= 6 {
+			if len(provs) > 10 {
+				provs = provs[:10]
+			}
+			thr := uint32(len(provs) - g.pick(2))
+			g.submit(Op{K: "mod", Mod: &ModOp{Label: g.label("m"), T: "create", Svc: svc, Providers: provs, Consumer: acctRef(pickInt(g, g.consumers)), Input: goodInput,
+				FeeCap: "20000000000000000stake", Timeout: int64(2 + g.pick(3)), Threshold: thr, Repeated: g.chance(0.5), Freq: 0, Total: 3}}, 0)
+			g.x.stats.inc("probe_stretch_module_many_providers")
+		}
+	}
+	if g.chance(0.004) && g.block < g.nBlocks-40 {
+		// a flood: well over a hundred one-shot requests pending on one binding at the same time
+		svc := pickStr(g, svcs)
+		for _, b := range g.bindingsOf(svc) {
+			if b.Available && int64(b.QoS) <= 30 && g.x.cur.Params.MaxRequestTimeout >= 30 {
+				for i := 0; i < 110+g.pick(30); i++ {
+					g.submit(g.tx(g.consumers[i%len(g.consumers)], MsgOp{T: "call", Svc: svc, Providers: []string{refOfAddr(g, b.Provider)}, Input: goodInput, FeeCap: "20000000000000000stake", Timeout: 30}), i/40)
+				}
+				g.x.stats.inc("probe_stretch_flood")
+				break
+			}
+		}
+	}
+	if g.chance(0.03) {
+		// a dozen or two one-shot contexts in one block with the same timeout: they all start, and all expire, together
+		svc := pickStr(g, svcs)
+		binds := g.bindingsOf(svc)
+		if len(binds) > 0 {
+			t := int64(1 + g.pick(3))
+			for i := 0; i < 9+g.pick(16); i++ {
+				b := binds[g.pick(len(binds))]
+				g.submit(g.tx(g.consumers[i%len(g.consumers)], MsgOp{T: "call", Svc: svc, Providers: []string{refOfAddr(g, b.Provider)}, Input: goodInput, FeeCap: "20000000000000000stake", Timeout: t}), 0)
+			}
+			g.x.stats.inc("probe_stretch_mass_expiry")
+		}
+	}
+	if g.chance(0.05) {
+		// pause/start cycles of one repeated context
+		s := g.x.cur
+		for _, id := range s.CtxIDs() {
+			c := s.Ctx[id]
+			if c.Repeated && c.State == types.RUNNING && c.ModuleName == "" {
+				if o := g.acctIndex(c.Consumer); o >= 0 {
+					ref := g.ctxRefFor(id)
+					for k := 0; k < 4; k++ {
+						g.submit(g.tx(o, MsgOp{T: "pause", Ctx: ref}), 2*k)
+						g.submit(g.tx(o, MsgOp{T: "start", Ctx: ref}), 2*k+1)
+					}
+					g.x.stats.inc("probe_stretch_pause_start_cycles")
+				}
+				break
+			}
 		}
 	}
 }
